@@ -332,16 +332,19 @@ def run_m1(chk, P):
             prev = ca
             if not mine:
                 continue
-            for reg, pv in sorted(regs.items()):
-                pv = frozenset(pv)
-                key = '%s@%#x:%s' % (name, ca - res['entry'], reg)
-                loc = res['lines'].get(ca, rel)
-                bad = [(a, spv) for a, spv in mine if spv != pv]
-                fmt = lambda st: '{%s}' % ', '.join(('+%#x' % (x - res['entry'])) if isinstance(x, int) else 'other' for x in sorted(st, key=str))
-                r.check(not bad, key, loc,
-                        '%s: %s passed to %s derives from the lane-minimum search(es) at %s, but the vector subtracted from the lane lengths at '
-                        '+%#x derives from %s' % (name, reg, tgt, fmt(pv), (bad[0][0] - res['entry']) if bad else 0, fmt(bad[0][1]) if bad else ''),
-                        detail={'kernel': tgt})
+            # which argument register carries the length is the callee's convention (arg2 for the hash / AES kernels, r8 for ZUC);
+            # registers holding a stale intermediate minimum may also carry provenance: the subtrahend must agree with one of them
+            key = '%s@%#x' % (name, ca - res['entry'])
+            loc = res['lines'].get(ca, rel)
+            fmt = lambda st: '{%s}' % ', '.join(('+%#x' % (x - res['entry'])) if isinstance(x, int) else 'other' for x in sorted(st, key=str))
+            sets = {reg: frozenset(pv) for reg, pv in regs.items()}
+            bad = [(a, spv) for a, spv in mine if spv not in sets.values()]
+            r.check(not bad, key, loc,
+                    '%s: the vector subtracted from the lane lengths at +%#x derives from the lane-minimum search(es) %s, but no argument of %s '
+                    'does (%s): the kernel processes a different number of blocks than the lanes are charged' % (
+                        name, (bad[0][0] - res['entry']) if bad else 0, fmt(bad[0][1]) if bad else '', tgt,
+                        ', '.join('%s %s' % (rg, fmt(pv)) for rg, pv in sorted(sets.items()))),
+                    detail={'kernel': tgt})
     chk.extra['m1_routines_with_only_a_subtraction'] = nsub_only
     chk.extra['m1_routines_with_only_a_kernel_length'] = ncall_only
 
